@@ -615,44 +615,59 @@ def insertByIdx (objs : Array Obj) (x : Nat) : List Nat → List Nat
   | y :: ys => if (objs[x]?.map (·.synthIndex)).getD 0 < (objs[y]?.map (·.synthIndex)).getD 0
                then x :: y :: ys else y :: insertByIdx objs x ys
 
-/-- the `while len(self._available) > 0` loop of `_topological_sort`; `fuel` = number of
-    children + 1 (every unit becomes available at most once) -/
-def topoLoop (objs : Array Obj) (desc : Nat → List Nat) :
-    Nat → Array (List Nat) → List Nat → Array (Option Nat) → Except Err (Array (Option Nat))
-  | 0, _, _, out => pure out
+/-- `ugen._remove_antecedent(o)` for one descendant `d`: `_antecedents.remove(o)` (KeyError
+    if absent) and `_make_available()`.  State = (remaining antecedent sets, `_available`). -/
+def removeAnte (o : Nat) (st : (Nat → List Nat) × List Nat) (d : Nat) :
+    Except Err ((Nat → List Nat) × List Nat) :=
+  let l := st.1 d
+  if o ∈ l then
+    let l' := setErase o l
+    .ok ((fun x => if x = d then l' else st.1 x), if l'.isEmpty then st.2 ++ [d] else st.2)
+  else .error .keyError
+
+def removeAll (o : Nat) : List Nat → (Nat → List Nat) × List Nat →
+    Except Err ((Nat → List Nat) × List Nat)
+  | [], st => .ok st
+  | d :: ds, st =>
+    match removeAnte o st d with
+    | .ok st' => removeAll o ds st'
+    | .error e => .error e
+
+/-- the `while len(self._available) > 0` loop of `_topological_sort`.
+    `order o` is the sequence in which `_arrange` visits the descendants of `o`
+    (`reversed(sorted(descendants, key=_synth_index))` in the code — the theorems hold for
+    every enumeration).  `fuel` = number of children + 1 (a unit becomes available at most
+    once). -/
+def topoLoop (order : Nat → List Nat) :
+    Nat → (Nat → List Nat) → List Nat → List Nat → Except Err (List Nat)
+  | 0, _, _, out => .ok out
   | fuel + 1, ante, avail, out =>
     match avail.getLast? with
-    | none => pure out
-    | some o => do
-      let avail := avail.dropLast
-      let sorted := (desc o).foldl (fun acc x => insertByIdx objs x acc) []
-      -- `for ugen in reversed(descendants): ugen._remove_antecedent(self)`
-      let step := fun (st : Except Err (Array (List Nat) × List Nat)) (d : Nat) => do
-        let (ante, avail) ← st
-        let l := ante[d]?.getD []
-        if o ∉ l then throw Err.keyError
-        let l' := setErase o l
-        pure (ante.modify d fun _ => l', if l'.isEmpty then avail ++ [d] else avail)
-      let (ante, avail) ← sorted.reverse.foldl step (pure (ante, avail))
-      topoLoop objs desc fuel ante avail (out.push (some o))
+    | none => .ok out
+    | some o =>
+      match removeAll o (order o) (ante, avail.dropLast) with
+      | .ok st => topoLoop order fuel st.1 st.2 (out ++ [o])
+      | .error e => .error e
 
 /-- `_topological_sort` + `_index_ugens` -/
 def topoSort : M Unit := do
-  let ante ← initTopoSort
+  let anteA ← initTopoSort
   let s ← get
   let kids := s.children.toList.filterMap id
+  let ante := fun o => anteA[o]?.getD []
   -- `for ugen in reversed(children): ugen._make_available()`; `_available` is a stack
-  let avail := kids.reverse.filter fun o => (ante[o]?.getD []).isEmpty
-  let desc := fun o => match s.objs[o]?.bind (·.desc) with
+  let avail := kids.reverse.filter fun o => (ante o).isEmpty
+  let desc := fun (o : Nat) => match (s.objs[o]?).bind (fun (x : Obj) => x.desc) with
     | some c => s.cells[c]?.getD []
     | none => []
-  match topoLoop s.objs desc (kids.length + 1) ante avail #[] with
+  let order := fun o => ((desc o).foldl (fun acc x => insertByIdx s.objs x acc) []).reverse
+  match topoLoop order (kids.length + 1) ante avail [] with
   | .error e => throw e
   | .ok out =>
-    set { s with children := out }
+    set { s with children := (out.map some).toArray }
     let mut i : Int := 0
-    for c in out do
-      if let some o := c then modObj o fun x => { x with synthIndex := i }
+    for o in out do
+      modObj o fun x => { x with synthIndex := i }
       i := i + 1
 
 /-! ### checks, constants, emission -/
